@@ -2,6 +2,7 @@
 Props/C07.lean — C07 "Saving unchanged tags is lossless and idempotent".
 -/
 import MutagenModel.Proofs.Container.Flac
+import MutagenModel.Proofs.Container.ApeFile
 import MutagenModel.Proofs.Container.Id3File
 import MutagenModel.Proofs.Padding
 import MutagenModel.Proofs.TagOrder
@@ -113,5 +114,14 @@ theorem id3_resave_idempotent (L : Id3F.Layout) (h : L.OK) (vmaj : Nat) (hvm : v
       have h2 : ¬ v1opt = 2 := fun e => hc (Or.inr e)
       simp [h2]
   rw [show L1.audio = L.audio from rfl, show L1.v1 = Id3F.newV1 L.v1 v1opt blk from rfl, hnv, hrender]
+
+/-! ## APEv2-tagged files -/
+
+/-- APEv2: saving the same items again gives the same file (the tag is found where it was written
+and replaced by identical bytes) -/
+theorem ape_resave_idempotent (audio : Bytes) (items : List Ape.Item)
+    (hs : ((items.map Ape.encodeItem).flatten).length + 32 < 256 ^ 4) (ha : ApeF.AudioOK audio (Ape.encodeTag items)) :
+    ApeF.save (audio ++ Ape.encodeTag items) (Ape.encodeTag items) = .ok (audio ++ Ape.encodeTag items) :=
+  ApeF.save_over_tag audio items _ hs ha
 
 end Mutagen.C07
